@@ -80,45 +80,19 @@ impl TimeZone {
     }
 
     pub(crate) fn to_local_time_type(&self, timestamp: i64) -> LocalTimeType {
+        // The footer rule applies if there are no transitions or after the last transition
+        let after_last_transition = match self.transitions.last() {
+            Some(transition) => transition.unix_leap_time <= timestamp,
+            None => true,
+        };
+        if after_last_transition {
+            if let Some(rule) = &self.extra_rule {
+                return Self::rule_to_local_time_type(rule, timestamp);
+            }
+        }
+
         match self.transitions[..] {
-            [] => match &self.extra_rule {
-                Some(rule) => match rule {
-                    TransitionRule::Fixed(local_time_type) => local_time_type.clone(),
-                    TransitionRule::Alternate(altt) => {
-                        let std_end_timestamp = altt.local_std_end_timestamp(timestamp);
-                        let dst_end_timestamp = altt.local_dst_end_timestamp(timestamp);
-
-                        let std_end_unix = std_end_timestamp - altt.std.utoff as i64;
-                        let dst_end_unix = dst_end_timestamp - altt.dst.utoff as i64;
-
-                        match timestamp {
-                            // std end is before dst end
-                            // timestamp is after time changed to dst
-                            timestamp
-                                if std_end_unix < dst_end_unix
-                                    && std_end_unix <= timestamp
-                                    && timestamp < dst_end_unix =>
-                            {
-                                altt.dst.clone()
-                            }
-                            // std is before dst
-                            // timestamp is in std range
-                            _ if std_end_unix < dst_end_unix => altt.std.clone(),
-                            // dst end is before std end
-                            // timestamp is after time changed to std
-                            timestamp
-                                if dst_end_unix < std_end_unix
-                                    && dst_end_unix <= timestamp
-                                    && timestamp < std_end_unix =>
-                            {
-                                altt.std.clone()
-                            }
-                            _ => altt.dst.clone(),
-                        }
-                    }
-                },
-                None => self.local_time_types[0].clone(),
-            },
+            [] => self.local_time_types[0].clone(),
             _ => {
                 let mut local_time_type_index = 0;
                 for transition in self.transitions.iter().rev() {
@@ -128,6 +102,44 @@ impl TimeZone {
                     }
                 }
                 self.local_time_types[local_time_type_index].clone()
+            }
+        }
+    }
+
+    fn rule_to_local_time_type(rule: &TransitionRule, timestamp: i64) -> LocalTimeType {
+        match rule {
+            TransitionRule::Fixed(local_time_type) => local_time_type.clone(),
+            TransitionRule::Alternate(altt) => {
+                let std_end_timestamp = altt.local_std_end_timestamp(timestamp);
+                let dst_end_timestamp = altt.local_dst_end_timestamp(timestamp);
+
+                let std_end_unix = std_end_timestamp - altt.std.utoff as i64;
+                let dst_end_unix = dst_end_timestamp - altt.dst.utoff as i64;
+
+                match timestamp {
+                    // std end is before dst end
+                    // timestamp is after time changed to dst
+                    timestamp
+                        if std_end_unix < dst_end_unix
+                            && std_end_unix <= timestamp
+                            && timestamp < dst_end_unix =>
+                    {
+                        altt.dst.clone()
+                    }
+                    // std is before dst
+                    // timestamp is in std range
+                    _ if std_end_unix < dst_end_unix => altt.std.clone(),
+                    // dst end is before std end
+                    // timestamp is after time changed to std
+                    timestamp
+                        if dst_end_unix < std_end_unix
+                            && dst_end_unix <= timestamp
+                            && timestamp < std_end_unix =>
+                    {
+                        altt.std.clone()
+                    }
+                    _ => altt.dst.clone(),
+                }
             }
         }
     }
